@@ -43,24 +43,35 @@ def panelMargin (fn : Fn) (p : Panel) : Rat :=
   let num := rabs (rabs (p.S2 - p.S) - K.accFactor * p.eps)
   if den = 0 then (if num = 0 then 0 else 1) else num / den
 
+/-- the model's answer for one outer call -/
+def answer (tr : Nat) (fn : Fn) (a b eps : Rat) (d : Int) : String :=
+  let r := integrate fn.eval a b eps d
+  if r.evals.any fn.pole then "undef" else
+  let dec := r.panels.filter (fun p => p.bottom > 0)
+  let cut := r.panels.filter (fun p => p.bottom = 0)
+  let margin := ratMin (dec.map (panelMargin fn)) 1
+  let wmargin := ratMin (cut.map (panelMargin fn)) 1
+  let scale := rabs (b - a) * ratMax (r.evals.map fn.mag) 0
+  let sumx := r.evals.foldl (· + ·) 0
+  "ok " ++ showRat r.val ++ " " ++ (if r.warn then "1" else "0") ++ " " ++ toString r.evals.length ++ " "
+    ++ showRat sumx ++ " " ++ showRat margin ++ " " ++ showRat wmargin ++ " " ++ showRat scale
+    ++ (if tr = 1 then " " ++ showRats r.evals else "")
+
 def handle : Handler := fun op args =>
   match op with
   | "c03.int" =>
     withArgs (do let tr ← pNat; let fn ← pFn; let a ← pRat; let b ← pRat; let eps ← pRat; let d ← pInt
-                 pure (tr, fn, a, b, eps, d)) args fun (tr, fn, a, b, eps, d) =>
-      let r := integrate fn.eval a b eps d
-      if r.evals.any fn.pole then "undef" else
-      let dec := r.panels.filter (fun p => p.bottom > 0)
-      let cut := r.panels.filter (fun p => p.bottom = 0)
-      let margin := ratMin (dec.map (panelMargin fn)) 1
-      let wmargin := ratMin (cut.map (panelMargin fn)) 1
-      let scale := rabs (b - a) * ratMax (r.evals.map fn.mag) 0
-      let sumx := r.evals.foldl (· + ·) 0
-      "ok " ++ showRat r.val ++ " " ++ (if r.warn then "1" else "0") ++ " " ++ toString r.evals.length ++ " "
-        ++ showRat sumx ++ " " ++ showRat margin ++ " " ++ showRat wmargin ++ " " ++ showRat scale
-        ++ (if tr = 1 then " " ++ showRats r.evals else "")
+                 pure (tr, fn, a, b, eps, d)) args fun (tr, fn, a, b, eps, d) => answer tr fn a b eps d
+  -- nested: the outer integrand also runs an inner Integrate (own integrand, limits, eps, depth) and discards
+  -- it.  By `integrate_nested_independent` the model of the outer call is the model of the plain call: the inner
+  -- request is parsed (it must be well-formed) and ignored.
+  | "c03.nested" =>
+    withArgs (do let tr ← pNat; let fn ← pFn; let a ← pRat; let b ← pRat; let eps ← pRat; let d ← pInt
+                 let _ifn ← pFn; let _ia ← pRat; let _ib ← pRat; let _ie ← pRat; let _id ← pInt
+                 pure (tr, fn, a, b, eps, d)) args fun (tr, fn, a, b, eps, d) => answer tr fn a b eps d
   -- transcendental / arbitrary integrands: decided by the oracle on the implementation only
   | "c03.fam" => some "undef"
+  | "c03.nestedf" => some "undef"
   | _ => none
 
 def main : IO Unit := driverMain handle
